@@ -4,8 +4,8 @@ import json, sys
 
 CLAIMED = {
  # id: (level text, level note, design_ref)
- "C07": ("Bounded symbolic model checking of the real EarlyReserveRegion / MapRegion / IdentityMapRegion SSA: one reservation step from an arbitrary valid cursor for all 2^64 sizes (covers histories of any length by induction on the cursor invariant), and region mapping for sizes in [0,4 pages] and [2^64-8192,2^64-1] with the map callback failing at an arbitrary call.",
-         "Trusts go/ssa, the gosym interpreter (validated by native replay of solver models), cvc5/z3; cursor invariant (aligned, <= tempMappingAddr) is assumed for the step and shown preserved; sizes between 4 pages and 2^64-8192 for the mapping loops are outside the bound.", "7 C07"),
+ "C07": ("Bounded symbolic model checking of the real EarlyReserveRegion / MapRegion / IdentityMapRegion SSA: one reservation step from an arbitrary valid cursor for all 2^64 sizes (covers histories of any length by induction on the cursor invariant), region mapping for sizes in [0,4 pages] and [2^64-8192,2^64-1] with the map callback failing at an arbitrary call, and the Go-runtime allocator hooks sysReserve / sysAlloc / sysMap of kernel/goruntime on top of the real EarlyReserveRegion (a reservation or allocation reported as made covers the requested size; exactly the needed pages are mapped).",
+         "Trusts go/ssa, the gosym interpreter (validated by native replay of solver models), cvc5/z3; cursor invariant (aligned, <= tempMappingAddr) is assumed for the step and shown preserved; sizes between 4 pages and 2^64-8192 for the mapping loops are outside the bound; in package goruntime the file of body-less go:linkname declarations (not linkable with this toolchain) is replaced by empty stubs, both for the encoding and for the native replay.", "7 C07"),
 }
 
 CLAIMED.update({
@@ -24,15 +24,15 @@ CLAIMED.update({
 CLAIMED.update({
  "C13": ("Bounded symbolic model checking of the real ObjectTree: one editing operation (newObject, append, appendAfter, detach, free) from an arbitrary well-formed tree state of K objects (every link field, live/freed flag and free-list head symbolic) - the post-state equals a reference list model and is well-formed again, so edit histories of any length follow by induction - plus Find on a fixed 8-node shape for every well-formed expression form (symbolic name segments, all prefix forms, from every scope) against an independent resolver, and for arbitrary byte strings (no crash, result is not-found or an existing node), and NumArgs/ArgAt against the list model.",
          "WF(tree) and the documented operand preconditions are assumed for the step (arguments live, appended object detached and not an ancestor, root never re-parented); K = 4 (quick) / 5 (thorough); lookups use one fixed tree shape with concrete node names; expressions of up to 7 arbitrary bytes.", "7 C13"),
- "C15": ("Bounded symbolic model checking of the real kfmt.fmtInt / Fprintf: every value of all eleven built-in integer types in base 8/10/16 (digits checked by Horner reconstruction; decimal decided through cvc5's integer encoding), padding for every int padLen, %s/%t/wrong-type markers, and the whole format scanner over every format string of L bytes against a reference formatter (inside the documented language exact equality, for every string no panic).",
+ "C15": ("Bounded symbolic model checking of the real kfmt.fmtInt / Fprintf: every value of all eleven built-in integer types in base 8/10/16 (digits checked by Horner reconstruction; decimal decided through cvc5's integer encoding), padding for every int padLen, %s/%t/wrong-type markers, the whole format scanner over every format string of L bytes and over the 5-byte shape %<digit><verb>%<verb> against a reference formatter (inside the documented language exact equality, for every string no panic).",
          "Not decided: 'performs no heap allocation' (a property of the compiler's escape analysis, not of input/output behaviour). Bounds: pad harness values <= 8 bits, strings <= 3 bytes, widths in formats <= 2 digits, format length 3 (quick) / 4 (thorough), fixed argument lists.", "7 C15"),
- "C19": ("Bounded symbolic model checking of the real console drivers: VgaTextConsole Write/Fill/Scroll on grids up to 3x3 (4x3 thorough) with every cell and every 32-bit/8-bit argument symbolic, and VesaFbConsole Write/Fill/Scroll on a 2x2-cell grid with remainder row/column, pitch padding, logo offset, 8x2 and 9x2 synthetic fonts with symbolic glyph data, depth 8/16 (quick; Fill also 24) or 8/15/16/24/32 with symbolic colour masks (thorough); every framebuffer byte is compared with an independent pixel-level oracle; any access outside the buffer is a violation.",
+ "C19": ("Bounded symbolic model checking of the real console drivers: VgaTextConsole Write/Fill/Scroll on grids up to 3x3 (4x3 thorough) with every cell and every 32-bit/8-bit argument symbolic, and VesaFbConsole Write/Fill/Scroll on a 2x2-cell grid with remainder row/column, pitch padding, logo offset, 8x2 and 9x2 synthetic fonts with symbolic glyph data, depth 8/16 (quick; Fill also 24) or 8/15/16/24/32 with symbolic colour masks (thorough); SetPaletteColor on a concrete checkerboard picture with a symbolic new colour; every framebuffer byte is compared with an independent pixel-level oracle; any access outside the buffer is a violation.",
          "Framebuffer = Go slice of exactly height*pitch bytes; in-grid coordinates are case-split (enumerated) and out-of-grid ones symbolic; characters < 4 with the synthetic 4-glyph fonts; one open known finding (KF-C19-1: framebuffer Scroll rewrites pitch padding / remainder rows).", "7 C19"),
 })
 
 CLAIMED.update({
- "C17": ("Bounded symbolic model checking of the real tty.VT: one operation (WriteByte of any byte, Write of two bytes, SetCursorPosition with any 32-bit coordinates, SetState) from an arbitrary terminal state satisfying Inv(VT) on every geometry of an enumerated set, compared cell by cell (contents, scrollback, cursor, viewport, data offset) with an independent reference terminal; plus AttachTo as the init lemma. Histories of any length follow by induction on Inv(VT).",
-         "Geometries enumerated (width x height x scrollback x tab width), everything else symbolic; Inv(VT) assumed for the pre-state and re-established by the equality with the reference; attached console is a reference grid console.", "7 C17"),
+ "C17": ("Bounded symbolic model checking of the real tty.VT: one operation (WriteByte of any byte, Write of two bytes, SetCursorPosition with any 32-bit coordinates, SetState) from an arbitrary terminal state satisfying Inv(VT) on every geometry of an enumerated set, compared cell by cell (contents, scrollback, cursor, viewport, data offset) with an independent reference terminal; plus AttachTo from an arbitrary previous attachment as the init lemma. Histories of any length follow by induction on Inv(VT).",
+         "Geometries enumerated (width x height x scrollback x tab width, including tab widths >= 128), everything else symbolic; Inv(VT) assumed for the pre-state and re-established by the equality with the reference; attached console is a reference grid console.", "7 C17"),
  "C18": ("Same step lemma as C17 with the sync invariant added: an active terminal's console shows exactly the viewport after every operation, an inactive terminal never touches the console, activation redraws - checked with a reference grid console (arbitrary cell colours) and with the shipped VgaTextConsole (cell word = 0x0700|char).",
          "Framebuffer (VesaFbConsole) synchronisation is not part of this check: the driver's own painting is covered by C19; geometries enumerated as in C17.", "7 C18"),
 })
@@ -53,10 +53,10 @@ CLAIMED.update({
 
 CLAIMED.update({
  "C11": ("Bounded symbolic model checking of the real AML parser (ParseAML with all its passes) on well-formed programs of fixed shape with symbolic contents: every name segment, integer/string constant, flag byte and PkgLength encoding is decided by the solver; after a successful parse every declared object is located by its stream offset and checked for kind, name, absolute path (enclosing named scopes up to the root), integer/string arguments in order; method invocations before and after the declaration carry exactly the declared arguments.",
-         "Shapes are enumerated (seven templates: ten kinds of named objects at the root and nested in a Device; Scope(\\_SB_) and a dual-name Scope to a Device; forward and backward two-argument method calls; parent-prefix, relative and absolute multi-segment names and Scope targets through two nested Devices; invocations with operator expressions as arguments / as operands; If nested in a While body; 0..7-argument invocation inside a deferred block), contents symbolic; this is not 'every program of the grammar': multi-table loads, Buffer size expressions, BankField, nesting depth > 3 are outside. Two open known findings (KF-C11-1 parent-prefix names inside a Device, KF-C11-4 If inside While), both encoded in the repository's golden files. kfmt.Fprintf stubbed while encoding.", "7 C11"),
- "C12": ("Bounded symbolic model checking of the real ParseAML on malformed input: every payload of up to 2 (thorough 3) arbitrary bytes behind a valid header, and templates with unconstrained holes (Device with a dual-name path of 8 arbitrary name bytes; Field Connection buffer with arbitrary length prefix; Scope(\\_SB_) with a 1..2-byte arbitrary body; path-declared Name followed by a Scope directive with 8 arbitrary name bytes; nested Buffers with both package-length bytes from a menu of 20 values): never panics, call depth stays within a budget proportional to the input (exceeding it = non-termination), every []byte the tree refers to lies inside the table region, the tree stays a tree (parent chains end, child lists consistent in both directions).",
-         "Arbitrary inputs longer than 3 bytes only through the five templates; termination = call-depth 120 / 600 decisions / 20M instructions per path; kfmt.Fprintf stubbed while encoding.", "7 C12"),
- "C14": ("Bounded symbolic model checking of the real locateRSDT and acpiDriver.DriverInit over raw firmware regions with symbolic bytes: RSDP found at the first 16-byte slot whose descriptor has the signature and a zero byte sum (20 bytes for revision 0, the 36 bytes of the ACPI 2.0 structure otherwise - stated from the specification, not from the padded Go struct), window unmapped on every path; RSDT/XSDT enumeration registers a listed table iff its bytes sum to zero, reports and skips bad ones, and registers the DSDT a checksum-valid FADT designates (32-bit pointer for revision < 2 roots, else the 64-bit one, 32-bit when that is zero); the DSDT is placed alone in its frame, page-aligned or crossing a page boundary, and the mappings the driver requests must reach what it then reads (open known finding KF-C14-2).",
+         "Shapes are enumerated (eight templates: ten kinds of named objects at the root and nested in a Device; Scope(\\_SB_) and a dual-name Scope to a Device; forward and backward two-argument method calls; parent-prefix, relative and absolute multi-segment names and Scope targets through two nested Devices; invocations with operator expressions as arguments / as operands; If nested in a While body; 0..7-argument invocation inside a deferred block; a name referring into a Device that is declared later through an absolute path), contents symbolic; this is not 'every program of the grammar': multi-table loads, Buffer size expressions, BankField, nesting depth > 3 are outside. Two open known findings (KF-C11-1 parent-prefix names inside a Device, KF-C11-4 If inside While), both encoded in the repository's golden files. kfmt.Fprintf stubbed while encoding.", "7 C11"),
+ "C12": ("Bounded symbolic model checking of the real ParseAML on malformed input: every payload of up to 2 (thorough 3) arbitrary bytes behind a valid header, and templates with unconstrained holes (Device with a dual-name path of 8 arbitrary name bytes; Field Connection buffer with arbitrary length prefix; Scope(\\_SB_) with a 1..2-byte arbitrary body; path-declared Name followed by a Scope directive with 8 arbitrary name bytes; nested Buffers with both package-length bytes from a menu of 20 values; a Method whose PkgLength cuts its name short): never panics, call depth stays within a budget proportional to the input (exceeding it = non-termination), every []byte the tree refers to lies inside the table region, the tree stays a tree (parent chains end, child lists consistent in both directions) and can be printed afterwards, whether the table was accepted or rejected (quick tier: in the templates; thorough: everywhere).",
+         "Arbitrary inputs longer than 3 bytes only through the six templates; termination = call-depth 120 / 600 decisions / 20M instructions per path; kfmt.Fprintf stubbed while encoding.", "7 C12"),
+ "C14": ("Bounded symbolic model checking of the real locateRSDT and acpiDriver.DriverInit over raw firmware regions with symbolic bytes: RSDP found at the first 16-byte slot whose descriptor has the signature and a zero byte sum (20 bytes for revision 0, the 36 bytes of the ACPI 2.0 structure otherwise - stated from the specification, not from the padded Go struct), window unmapped on every path; RSDT/XSDT enumeration registers a listed table iff its bytes sum to zero, reports and skips bad ones, and registers the DSDT a checksum-valid FADT designates (32-bit pointer for revision < 2 roots, else the 64-bit one, 32-bit when that is zero); the DSDT is placed alone in its frame, page-aligned or crossing a page boundary, and the mappings the driver requests must reach what it then reads (open known finding KF-C14-2); at the 4 GiB-aligned address 0x200000000; and a FADT laid out as the ACPI specification packs it, X_DSDT at byte offset 140 (open known finding KF-C14-4: the Go struct reads offset 152).",
          "Table lengths and entry addresses are written (concrete) by the harness; signatures pairwise distinct; quick tier: 1 plain table + FADT + DSDT with FADT body bytes zero, thorough: 3 tables, all bytes symbolic; mapping functions are the repository's test seams; kfmt.Fprintf replaced by a one-byte report.", "7 C14"),
  "C16": ("Bounded symbolic model checking of the real kfmt ring buffer (Write/Read step lemmas over an arbitrary ring state of 2048 arbitrary bytes, checked at an arbitrary position), SetOutputSink hand-over (real io.Copy), PrefixWriter, and of hal.DetectHardware with 3 (4) mock drivers of arbitrary detection order byte, kind and probe/init outcome (real sort.Sort, bytes.Buffer, PrefixWriter): probes in non-decreasing order, failed drivers never active, first console/terminal win, terminal attached before it becomes the log sink, and the exact expected log text arrives on it once and in order.",
          "Mock consoles do not implement LogoSetter/FontSetter (boot-command-line handling outside); driver names/versions fixed; ring Write <= 3 bytes, Read <= 4 bytes per step.", "7 C16"),
@@ -95,7 +95,7 @@ def main():
         "setup_cmd": "/verif/scripts/setup.sh",
         "hooks": {
             "guard": "verif",
-            "enable": "harnesses and the zzverif support package are injected as overlay files (packages.Config.Overlay / go test -overlay) carrying //go:build verif; nothing is added to /repo",
+            "enable": "harnesses and the zzverif support package are injected as overlay files (packages.Config.Overlay / go test -overlay) carrying //go:build verif; nothing is added to /repo; one overlay file shadows a repository file: kernel/goruntime/bootstrap_go18+.go (body-less go:linkname declarations that this toolchain cannot link) is replaced by empty stubs for the C07 goruntime harnesses",
             "baseline_off_cmd": "/verif/scripts/baseline_off.sh",
             "source_commits": [],
             "add_only": True,
